@@ -388,6 +388,15 @@ func (w *vWorld) listed() PipelineInfo {
 	return PipelineInfo{}
 }
 
+func vContains(s, sub string) bool {
+	for i := 0; i+len(sub) <= len(s); i++ {
+		if s[i:i+len(sub)] == sub {
+			return true
+		}
+	}
+	return false
+}
+
 func vJobName(i int) string {
 	return "j" + string(rune('1'+i))
 }
@@ -660,19 +669,19 @@ func (w *vWorld) scanSpawned() {
 	spawnedForP := false
 	for i := w.seen; i < n; i++ {
 		var pj *PipelineJob
-		isCancel := false
+		tag := verifSpawnedTag(i)
+		isSched := vContains(tag, "startJob")
+		isCancel := vContains(tag, "cancelJobInternal")
 		for _, v := range verifSpawnedValues(i) {
 			switch x := v.(type) {
 			case *PipelineJob:
 				pj = x
 			case **PipelineJob:
 				pj = *x
-			case func():
-				isCancel = true
 			}
 		}
 		switch {
-		case pj != nil:
+		case isSched && pj != nil:
 			vj := w.byJob(pj)
 			if vj == nil {
 				verifFail("harness: goroutine for unknown job")
@@ -712,7 +721,14 @@ func (w *vWorld) onSpawn(vj *vJob, idx int) {
 	verifAssert(!vj.replaced, "C07.replaced-job-never-starts")
 	verifAssert(vj.job.Start != nil && !vj.job.Completed, "C01.started-job-reported-running")
 	// C07a: not before accepted + delay (event start instant is a lower bound of the start instant)
-	verifAssert(w.evStart >= vj.acceptT+vj.delay, "C07.start-not-before-delay")
+	if w.reloads > 0 && vj.defGen < w.defGen {
+		// a job accepted before a reload keeps the start delay it was accepted with (C16); asserted
+		// under its own name only: a failed assertion is assumed afterwards and would mask a twin
+		verifAssert(w.evStart >= vj.acceptT+vj.delay, "C16.start-delay-as-accepted")
+		verifReach("spawn.after-reload")
+	} else {
+		verifAssert(w.evStart >= vj.acceptT+vj.delay, "C07.start-not-before-delay")
+	}
 	if vj.delay > 0 {
 		verifReach("spawn.delayed-job")
 	}
@@ -786,6 +802,11 @@ func (w *vWorld) afterEvent() {
 		}
 		if w.reloads == 0 {
 			verifAssert(inOrder, "C06.queue-keeps-acceptance-order")
+		}
+		for _, j := range wl {
+			// a queued entry that already runs would be started a second time by the next dequeue
+			verifAssert(j.Start == nil, "C01.queued-job-not-already-started")
+			verifAssert(j.Start == nil && !j.Canceled && !j.Completed, "C05.only-waiting-jobs-occupy-queue-slots")
 		}
 		for _, vj := range w.waitingJobs() {
 			on := false
